@@ -177,6 +177,47 @@ def run(ctx, res):
         else:
             res.bad("COUNT-AGREE", "test_runner::describe_tests # passed", "tests_passed is not total_tests - tests_failed", g.loc())
 
+    # ---- SELECTION-FILTER: which tests run is decided only by "is a test" and the -n name filter. Any other
+    # condition on the way to `test_items.push` silently drops tests from the run, the counts and the exit status.
+    pushes = []
+    for bi, t in f.calls():
+        n = M.callee_name(t) or ""
+        if n.endswith("::push") and t["args"]:
+            r = f.root_of(t["args"][0], through_named=False)
+            if r[0] == "place" and f.local_name(r[1]["l"]) == "test_items":
+                pushes.append(bi)
+    res.floor("SELECTION-FILTER", "test_items.push sites", len(pushes), 1)
+    for pb in pushes:
+        conds = []
+        for bi in f.rpo:
+            t = f.blocks[bi]["term"]
+            if t["t"] != "switch" or not f.dominates(bi, pb) or bi == pb:
+                continue
+            on_edge = any(pb in D.edge_dominated(f, bi, tgt) for tgt in set(f.succ[bi]))
+            if not on_edge:
+                continue
+            r = f.root_of(t["discr"], through_named=True)
+            desc = describe_operand(f, t["discr"])
+            kind = None
+            if r[0] == "rv" and r[3]["rv"]["k"] == "discr":
+                src = f.root_of({"copy": {"l": r[3]["rv"]["place"]["l"], "p": []}}, through_named=True)
+                if src[0] == "call" and (M.callee_name(src[2]) or "").endswith(("::next",)):
+                    kind = "iterator"
+                elif "ToplevelItem" in str(r[3]["rv"].get("ety", "")):
+                    kind = "is-a-test"
+                elif "Option" in str(r[3]["rv"].get("ety", "")) or "Result" in str(r[3]["rv"].get("ety", "")):
+                    kind = "iterator" if src[0] == "call" and "next" in (M.callee_name(src[2]) or "") else None
+            elif r[0] == "call" and (M.callee_name(r[2]) or "").endswith("str>::contains"):
+                kind = "name-filter"
+            conds.append((kind, desc, bi))
+        extra = [c for c in conds if c[0] is None]
+        if extra:
+            res.bad("SELECTION-FILTER", "test_runner::run_tests_in_files # extra-condition # " + extra[0][1][:60],
+                    "a test is selected for the run only if `%s` also holds: tests can be dropped from the run (and from the "
+                    "failure count that decides the exit status) for a reason other than the -n filter" % extra[0][1][:80],
+                    f.loc(f.blocks[extra[0][2]]["term"].get("span")))
+        else:
+            res.ok("SELECTION-FILTER", "test_items.push is conditional only on %s" % sorted({c[0] for c in conds}))
     # ---- ISOLATION-SHAPE ---------------------------------------------------------------
     for fn_name in ("eval::eval_tests",):
         h = P.require_fn(fn_name)
